@@ -33,8 +33,11 @@ Theorem C01_fast_generic_roundtrip :
     (forall a, 0 <= vrd a < 256) -> 0 <= dictSize -> od <> FillOutput ->
     forall L, L <= startIndex ->
     (dd = CUsingDictCtx -> forall h, get dtable h + dictDelta < startIndex /\
-                                     good tt dd dictSmall startIndex dictSize (get dtable h + dictDelta)) ->
+                                     good3 tt dd dictSmall startIndex dictSize (get dtable h + dictDelta)) ->
     (dist_active tt = false -> startIndex + inputSize - MFLIMIT - hist_lo dd startIndex dictSize <= 65535) ->
+    0 <= startIndex ->
+    (tt = ByU16 -> mflimitPlusOne startIndex inputSize <= 65536
+                   \/ (dictSmall = true /\ 65536 <= startIndex - dictSize /\ L <= 0)) ->
     1 <= acceleration ->
     forall tab ss last consumed tab' hw,
     0 <= inputSize -> tab_ok tt dd dictSmall startIndex dictSize L (startIndex + 1) tab ->
